@@ -76,7 +76,9 @@ func (session *BasicHttpSubSession) Write(b []byte) {
 			PayloadLength: uint64(len(b)),
 			Masked:        false,
 		}
-		session.write(MakeWsFrameHeader(wsHeader))
+		// 帧头和负载作为一个整体进入发送队列，队列满时整帧丢弃，避免只丢其中一半而破坏websocket的帧边界
+		_, _ = session.conn.Writev(net.Buffers{MakeWsFrameHeader(wsHeader), b})
+		return
 	}
 	session.write(b)
 }
